@@ -10,6 +10,16 @@
      kids    the same observation fields for the non-leaf operands of a depth-2 expression (each observed as a
              constant of its own); used only to attribute a failure to the operand that already fails
 
+   A PROGRAM record (second case space of MC_Const: histories of constant declarations) has instead
+     id, scope ("pkg" | "func"), nobs, decls = one observation per declaration  const k<i> = <src>, with
+     name    the declared identifier (echo)
+     builds  of the program made of declarations 1..i only (so the first declaration scriggo rejects is known)
+     chk, eq, hasv, v, dtobs   observed by ONE observing program containing the longest prefix of declarations that
+             builds (nobs of them) followed by println(k<i> == <reflit>) ... for each of them - i.e. every named
+             constant is looked at after all declarations have been evaluated.  (If that observing program cannot be
+             built or run, this is logged as `chk` of the prefix's last declaration only, and the declarations before
+             it are observed by the observing program of the shorter prefix.)
+
    The reference value/verdict is recomputed here by TLC from `expr` (Const.tla part I).  src/reflit/vt/dt were
    computed by the same reference in MC_Const (checks/c02.py verifies that every observation echoes its exported
    case); Bound re-derives them for the records reported as bad - a bad record that is not bound is a machinery
@@ -20,6 +30,9 @@
      VALUE    reference accepts  =>   c == <reference literal> is true, the printed integer equals the
                                       reference integer, and c's default type is the reference's
    The reason class of a rejection is recorded as drift only (diagnostic).
+   Programs: the same two clauses for every declaration in order (an identifier denotes the constant it was declared
+   as: Const!Eval of a "ref" node), up to and including the first declaration the reference does not accept; what
+   follows a rejected or undecided declaration is not judged.
 
    Readings chosen (DESIGN Appendix C.5):
    - "the same value" includes the constant's kind: an untyped constant's kind decides its default type and the
@@ -75,6 +88,8 @@ LitOff(t) == CASE t.k = "lit" -> t.lk \in {"float", "imag"} /\ OffRange(DyMk(t.n
                [] t.k = "bin" -> LitOff(t.a) \/ LitOff(t.b)
                [] OTHER -> LitOff(t.a)
 NumVal(ref) == ref.st = "ok" /\ ref.chk /\ ref.v.k = "n"
+\* a floating-point / complex part of magnitude >= 2^512 (beyond the size limit of INTEGER constants, which does not apply to it)
+Wide(d) == d.n.s # 0 /\ DyMsb(d) >= 512
 \* the expression contains a shift whose left operand is an untyped float or complex constant
 RECURSIVE HasFloatShift(_)
 HasFloatShift(t) == CASE t.k = "lit" -> FALSE
@@ -97,17 +112,17 @@ Sig1(r) == LET t == r.expr ref == Ref(r)
                kb == IF t.k = "bin" THEN KindOf(t.b) ELSE "-" IN
            [fam |-> "const", fail |-> Fail2(r, ref), opk |-> OpKind(t), oc |-> OperandClass(ka, kb),
             typed |-> IF {ka, kb} \cap {"sint", "uint", "float", "complex", "bool", "string"} # {} THEN 1 ELSE 0,
-            root |-> IF t.k = "lit" THEN "lit" ELSE IF t.k = "conv" THEN "conv" ELSE IF t.k = "un" THEN (IF t.op = "-" THEN "neg" ELSE IF t.op = "+" THEN "pos" ELSE IF t.op = "^" THEN "cpl" ELSE "not") ELSE OpName(t.op),
+            root |-> IF t.k = "lit" THEN "lit" ELSE IF t.k = "ref" THEN "ref" ELSE IF t.k = "conv" THEN "conv" ELSE IF t.k = "un" THEN (IF t.op = "-" THEN "neg" ELSE IF t.op = "+" THEN "pos" ELSE IF t.op = "^" THEN "cpl" ELSE "not") ELSE OpName(t.op),
             to |-> IF t.k = "conv" THEN Coarse(t.ty) ELSE "-",
             ka |-> ka, kb |-> kb,
             na |-> IF t.k = "lit" THEN "-" ELSE t.a.k, nb |-> IF t.k = "bin" THEN t.b.k ELSE "-",
             fsh |-> IF HasFloatShift(t) THEN 1 ELSE 0,
             xf64 |-> IF LitOff(t) \/ RefOff(ref) THEN 1 ELSE 0,
+            wide |-> IF NumVal(ref) /\ TClass(ref.ty) \in {"float", "complex"} /\ (Wide(ref.v.re) \/ Wide(ref.v.im)) THEN 1 ELSE 0,
             xprec |-> IF t.k # "lit" /\ (OperandNeedsRound(t.a) \/ (t.k = "bin" /\ OperandNeedsRound(t.b))) THEN 1 ELSE 0]
 \* a failing expression one of whose operands already fails on its own is attributed to that operand
 RECURSIVE FirstBadKid(_, _)
 FirstBadKid(r, i) == IF i > Len(r.kids) THEN 0 ELSE IF Fail(r.kids[i]) # "" THEN i ELSE FirstBadKid(r, i + 1)
-Sig(r) == LET i == FirstBadKid(r, 1) IN IF i = 0 THEN Sig1(r) ELSE Sig1(r.kids[i])
 RECURSIVE AllBound(_, _)
 AllBound(r, i) == IF i > Len(r.kids) THEN TRUE ELSE Bound(r.kids[i], Ref(r.kids[i])) /\ AllBound(r, i + 1)
 
@@ -125,21 +140,52 @@ MsgClass(m) ==
   ELSE "invalid"
 Drift2(r, ref) == ref.st = "rej" /\ r.builds = "builderr" /\ MsgClass(r.msg) # ref.cls
 
+(* ---- programs of constant declarations ---- *)
+IsProg(r) == "decls" \in DOMAIN r
+\* walk the declarations in order: [f |-> failed clause ("" = none), i |-> the declaration it failed at, any |-> 1 if the
+\* walk ended at a declaration the reference does not decide]
+RECURSIVE PWalk2(_, _)
+PWalk1(ds, i, ref) == LET f == Fail2(ds[i], ref) IN
+                      IF f # "" THEN [f |-> f, i |-> i, any |-> 0]
+                      ELSE IF ref.st # "ok" THEN [f |-> "", i |-> 0, any |-> IF ref.st = "any" THEN 1 ELSE 0]
+                      ELSE PWalk2(ds, i + 1)
+PWalk2(ds, i) == IF i > Len(ds) THEN [f |-> "", i |-> 0, any |-> 0] ELSE PWalk1(ds, i, Ref(ds[i]))
+PWalk(r) == PWalk2(r.decls, 1)
+\* the identifiers inside declaration i denote earlier declarations of this very program
+RECURSIVE RefsOk(_, _, _)
+RefsOk(t, ds, i) == CASE t.k = "lit" -> TRUE
+                      [] t.k = "ref" -> t.i >= 1 /\ t.i < i /\ t.a = ds[t.i].expr
+                      [] t.k = "bin" -> RefsOk(t.a, ds, i) /\ RefsOk(t.b, ds, i)
+                      [] OTHER -> RefsOk(t.a, ds, i)
+RECURSIVE ProgBound(_, _)
+ProgBound(ds, i) == i > Len(ds) \/ (/\ ds[i].name = NameOf(i) /\ Bound(ds[i], Ref(ds[i])) /\ RefsOk(ds[i].expr, ds, i)
+                                     /\ ProgBound(ds, i + 1))
+\* the root cause of a failing program: the declaration at which the walk failed; `ctx` tells the two case spaces apart
+WithCtx(sg, c) == [x \in DOMAIN sg \cup {"ctx"} |-> IF x = "ctx" THEN c ELSE sg[x]]
+Sig(r) == IF IsProg(r) THEN WithCtx(Sig1(r.decls[PWalk(r).i]), "prog")
+          ELSE LET i == FirstBadKid(r, 1) IN WithCtx(IF i = 0 THEN Sig1(r) ELSE Sig1(r.kids[i]), "expr")
+BoundAll(r) == IF IsProg(r) THEN ProgBound(r.decls, 1) ELSE Bound(r, Ref(r)) /\ AllBound(r, 1)
+\* one judgement per record: f = failed clause, any = not decided by the reference, drift = reason-class drift
+JudgeExpr(r, ref) == [f |-> Fail2(r, ref), any |-> IF ref.st = "any" THEN 1 ELSE 0, drift |-> IF Drift2(r, ref) THEN 1 ELSE 0]
+JudgeProg(w) == [f |-> w.f, any |-> w.any, drift |-> 0]
+Judge(r) == IF IsProg(r) THEN JudgeProg(PWalk(r)) ELSE JudgeExpr(r, Ref(r))
+
 (* ---- record walk (skeleton of spec/lib2/Trace_HTMLEscape.tla; bad *indices* are carried because RecOk is
         expensive here - a second pass would double the cost; at most 400 small integers) ---- *)
 VARIABLES l, nbad, badidx, nskip, ndrift
 Obs == ndJsonDeserialize("obs.ndjson")
 Init == l = 1 /\ nbad = 0 /\ badidx = <<>> /\ nskip = 0 /\ ndrift = 0
+\* (the judgement is bound by \E so that TLC evaluates it once per record: a LET would be re-evaluated at every use)
 Next == /\ l <= Len(Obs) /\ l' = l + 1
-        /\ LET ref == Ref(Obs[l]) f == Fail2(Obs[l], ref) st == ref.st IN
-           /\ nbad' = nbad + (IF f = "" THEN 0 ELSE 1)
-           /\ badidx' = IF f # "" /\ Len(badidx) < 400 THEN Append(badidx, l) ELSE badidx
-           /\ nskip' = nskip + (IF st = "any" THEN 1 ELSE 0)
-           /\ ndrift' = ndrift + (IF Drift2(Obs[l], ref) THEN 1 ELSE 0)
+        /\ \E j \in {Judge(Obs[l])} :
+           /\ nbad' = nbad + (IF j.f = "" THEN 0 ELSE 1)
+           /\ badidx' = IF j.f # "" /\ Len(badidx) < 400 THEN Append(badidx, l) ELSE badidx
+           /\ nskip' = nskip + j.any
+           /\ ndrift' = ndrift + j.drift
 Done == l = Len(Obs) + 1 =>
           /\ ndJsonSerialize("bad.ndjson",
                [j \in 1..Len(badidx) |-> [k |-> badidx[j], id |-> Obs[badidx[j]].id, sig |-> Sig(Obs[badidx[j]]), nbad |-> nbad,
-                                       bound |-> IF Bound(Obs[badidx[j]], Ref(Obs[badidx[j]])) /\ AllBound(Obs[badidx[j]], 1) THEN 1 ELSE 0]])
+                                       bound |-> IF BoundAll(Obs[badidx[j]]) THEN 1 ELSE 0]])
           /\ ndJsonSerialize("stats.ndjson", <<[records |-> Len(Obs), nbad |-> nbad, ref_undefined |-> nskip, reason_class_drift |-> ndrift]>>)
 Consumed == TLCGet("stats").diameter - 1 = Len(Obs)
 =============================================================================
